@@ -145,3 +145,13 @@ Example C15_leading_one_canonicity :
   validate_address "NRoySJ9Lvby6DuE2UQYnyT67AASwNZxGb" = false /\
   validate_address "11NRoySJ9Lvby6DuE2UQYnyT67AASwNZxGb" = false.
 Proof. repeat split; vm_compute; reflexivity. Qed.
+
+(** the version bytes of the model are the constants of bscript/address.go (regenerated from the Go source on every run) *)
+From Coq Require Import String ZArith.
+From GoBT Require Import gen.MiscConsts proofs.InterpConstsProofs proofs.MiscConstsProofs.
+Local Open Scope string_scope.
+Theorem C15_version_bytes_match :
+  lookup address_consts "hashP2PKH" = Some (Z.of_N (b2n (version_byte true))) /\
+  lookup address_consts "hashTestNetP2PKH" = Some (Z.of_N (b2n (version_byte false))).
+Proof. destruct address_consts_match as (H1 & H2 & _). split; assumption. Qed.
+Print Assumptions C15_version_bytes_match.
